@@ -264,7 +264,7 @@ def last_day(y, m):
     return (datetime.date(y + (m == 12), m % 12 + 1, 1) - datetime.timedelta(days=1)).day
 
 
-SPECIAL_UTIMS = [0, 1, 59, 86399, 86400, 1165665017, 951782400, 946684799, 2 ** 31 - 1]
+SPECIAL_UTIMS = [0, 1, 59, 86399, 86400, 1165665017, 951782400, 946684799, 2 ** 31 - 1, -1, -86400, -500000000]    # also instants before 1970
 UTIMS = st.one_of(st.integers(0, 2 ** 31 - 1), st.sampled_from(SPECIAL_UTIMS))
 ROW_FIXED = 13
 TRAILS = ['', '', '', ' ', '  ', '\t']
